@@ -78,7 +78,7 @@ Proof. repeat split; vm_compute; reflexivity. Qed.
 Theorem C04_holds_refuted_old :
   exists k, k_old232 k = true /\ holds k (run_model k) <> [].
 Proof.
-  exists {| k_tftp := false; k_old232 := true; k_cfg := cfg_d; k_uri := bytes_of_string "/f.txt/a";
+  exists {| k_tftp := false; k_old232 := true; k_cached := false; k_cfg := cfg_d; k_uri := bytes_of_string "/f.txt/a";
             k_table := [(bytes_of_string "/srv/f.txt/a", 3, [])] |}.
   split; [reflexivity | vm_compute; discriminate].
 Qed.
@@ -94,7 +94,7 @@ Example C04_nonvacuous :
   handle false T_id FS_none GD_some (fun _ => FsOpened [104; 105]) cfg_d rp_d
     {| matches := true; raw_value := None; extra_path := Some (bytes_of_string "/a/../f.txt") |}
     = ([], [], RNotFound) /\
-  valid {| k_tftp := false; k_old232 := false; k_cfg := cfg_d; k_uri := bytes_of_string "/f.txt/a";
+  valid {| k_tftp := false; k_old232 := false; k_cached := false; k_cfg := cfg_d; k_uri := bytes_of_string "/f.txt/a";
            k_table := [(bytes_of_string "/srv/f.txt/a", 3, [])] |}.
 Proof.
   split; [repeat split; vm_compute; reflexivity|].
